@@ -76,19 +76,21 @@ def jobs(tier):
 ''' % '62'},
                    bounded='%d time points (3 in quick, 4 in thorough); finite weights in [-3, 3] plus the inf() sentinel; no registered undecided constraints (the re-propagation loop is empty)' % N))
     if tier == 'quick' or True:
-        # the same step at 4 time points (the i x j double loop needs them), split into two jobs so that each stays within the
+        # the same step at 4 time points (the i x j double loop needs them), split into four jobs (two sets of postconditions x two directions of the edge) so that each stays within the
         # time a per-change check may take: distances / predecessors are proved from the same preconditions in parallel
         import copy
-        for part, keep in (('distances', ('noexcept', 'distances_are_the_exact_closure', 'still_closed', 'nothing_learnt_without_registered_constraints')),
-                           ('predecessors', ('predecessors_are_last_hops_of_shortest_paths', 'edges_respected'))):
+        for part, keep, case in (('distances_up', ('noexcept', 'distances_are_the_exact_closure', 'still_closed', 'nothing_learnt_without_registered_constraints'), '*from < *to'),
+                                 ('distances_down', ('noexcept', 'distances_are_the_exact_closure', 'still_closed', 'nothing_learnt_without_registered_constraints'), '*from > *to'),
+                                 ('predecessors_up', ('predecessors_are_last_hops_of_shortest_paths', 'edges_respected'), '*from < *to'),
+                                 ('predecessors_down', ('predecessors_are_last_hops_of_shortest_paths', 'edges_respected'), '*from > *to')):
             j4 = copy.copy(out[0])
             N4 = 4
             j4.name = 'idl.propagate_edge_4_' + part
-            j4.contract = Contract(requires=list(c.requires), ensures=[e for e in c.ensures if e[0] in keep], assigns=c.assigns)
-            j4.defines = dict(d, XT_N=N4)
+            j4.contract = Contract(requires=list(c.requires[:-1]) + [case + ' /* case split over the direction of the new edge: the two cases together cover from != to */', c.requires[-1]], ensures=[e for e in c.ensures if e[0] in keep], assigns=c.assigns)
+            j4.defines = dict(d, XT_N=N4, XT_R=2)   # weights in [-2, 2]: keeps the slower of the two jobs well inside the per-change time limit
             j4.caps = dict(caps, vec_vec_I=N4, vec_I=N4, vec_vec_U=N4, vec_U=N4, vec_pair_U_U=2 + 4 * N4 + 2 * N4 * N4)
             j4.unwind, j4.model_unwind, j4.loop_unwind = N4 + 2, max(2 + 4 * N4 + 2 * N4 * N4, 12) + 1, {6: 2 + 4 * N4 + 2 * N4 * N4 + 2}
-            j4.bounded = '4 time points; finite weights in [-3, 3] plus the inf() sentinel; no registered undecided constraints; the postconditions of the step are split over two jobs'
+            j4.bounded = '4 time points; finite weights in [-2, 2] plus the inf() sentinel; no registered undecided constraints; the postconditions of the step and the direction of the new edge (from < to, from > to) are split over four jobs'
             if tier == 'quick':
                 out.append(j4)
     out.append(lit_job(tier, c))
